@@ -107,6 +107,12 @@ def template_histories(rng):
             evs = [('recv', {'kind': 'newer', 'pick': [0.9] * 6, 'delta': [2] * 6}), ('advance', 'past'), ('advance', where), ('recv', older), ('idle', 40), ('recv', eq),
                    ('idle', 500)]
             out.append({'nodes': nn, 'events': evs, 'last_used': 3, 'publish_in_callback': False, 'template': True})
+    # a suppression period is running (an isolated outdated vector was heard) when the wall clock is set back by an hour / forth by a
+    # day: the answer is still due when the period ends
+    for step_ in (-3600, -5, 86400):
+        for nn in (1, 2):
+            evs = [('recv', {'kind': 'newer', 'pick': [0.9] * 6, 'delta': [2] * 6}), ('advance', 'past'), ('idle', 400), ('recv', older), ('wall-clock-step', step_), ('idle', 600)]
+            out.append({'nodes': nn, 'events': evs, 'last_used': 3, 'publish_in_callback': False, 'template': True})
     return out
 
 
@@ -122,10 +128,13 @@ def gen_history(rng):
             evs.append(('pub',))
         elif k < 0.65:
             evs.append(('pub-send-fault',))
+
         else:
             evs.append(('advance', rng.choice(['before', 'past', 'past', 'small', 'at'])))
     evs.append(('advance', 'past'))
-    if rng.random() < 0.2:
+    if rng.random() < 0.15:
+        evs.append(('recv-then-stop',))          # (last event of its history)
+    elif rng.random() < 0.2:
         eq = {'kind': 'equal', 'pick': [0.9] * 6, 'delta': [1] * 6, 'unknown': None}
         evs += [('restart',) if rng.random() < 0.5 else ('restart', 'at-once'), ('recv', eq), ('idle', 400), ('pub',), ('recv', gen_vector_spec(rng, nodes)), ('advance', 'past')]
     return {'nodes': nn, 'events': evs, 'last_used': rng.choice([0, 0, 0, 3, 3, 254, 65535, 2**32 - 2, 2**32 - 1, 2**32, 2**40 + 1]), 'publish_in_callback': rng.random() < 0.25,
@@ -239,7 +248,11 @@ def execute(ctx, hist, rng):
         await asyncio.sleep(0)
         missing = []
 
+        slow = [False]
+
         async def pass_validator(n, s, c):
+            if slow[0]:
+                await asyncio.sleep(0.001)      # (a validator that has to look something up)
             return types.ValidResult.PASS
         cb_pubs = []
 
@@ -315,7 +328,7 @@ def execute(ctx, hist, rng):
                 R['viol'].append(('publish-not-announced-promptly:before-start', 'publications made before start() were not announced within 50 ms (virtual) of start()', {'history': hist}))
 
         def due_ms():
-            return (inst.next_sync_timing - vtime.BASE - vtime.EPS) * 1000.0
+            return (inst.next_sync_timing - vtime.BASE - vtime.EPS - S.wall_offset) * 1000.0
 
         model_local = {nid(SELF): pre_seq}
         self_seq = pre_seq
@@ -518,6 +531,43 @@ def execute(ctx, hist, rng):
                         check_emission_content(p, w)
                     obligations.clear()
                     heard = None
+            elif ev[0] == 'wall-clock-step':
+                # the wall clock is set back / forth while a timer is armed (only at the end of a history: the harness reads armed
+                # deadlines off the instance in wall-clock terms)
+                S.step_wall(ev[1])
+                ctx.event('wall-clock-stepped-while-a-timer-is-armed')
+                R['pattern'].append('w')
+            elif ev[0] == 'recv-then-stop':
+                # a vector is still with its (slow) validator when the application stops the instance: whatever the instance does with
+                # it, "an entry was raised" and "the callback fired" go together; the instance is then started again
+                slow[0] = True
+                before_real = dict(inst.local_sv)
+                n_missing = len(missing)
+                ents = [(nodes[0], min(model_local.get(nid(nodes[0]), 0) + 2, 2**64 - 1))]
+                wire = bytes(make_interest(BASE_PREFIX + [sv_component(ents)], InterestParam(nonce=ei + 1, lifetime=1000), b'', DigestSha256Signer(for_interest=True)))
+                dt_ = face.deliver_task(wire)
+                await asyncio.sleep(0.0005)
+                inst.stop()
+                slow[0] = False
+                await asyncio.gather(dt_, return_exceptions=True)
+                await asyncio.sleep(0.01)
+                after_real = dict(inst.local_sv)
+                raised_ = any(after_real.get(k, 0) > before_real.get(k, 0) for k in after_real)
+                fired_ = len(missing) - n_missing
+                ctx.event('vector-with-its-validator-when-the-instance-is-stopped')
+                if raised_ != (fired_ > 0):
+                    R['viol'].append(('missing-data-callback-mismatch:stopped-during-validation', f'the instance was stopped while a vector was being validated: an entry was '
+                                      f'{"raised" if raised_ else "not raised"} but the callback fired {fired_}x', w))
+                model_local = {k: v for k, v in after_real.items()}
+                try:
+                    inst.start(the_app)
+                except Exception as e:   # noqa
+                    R['viol'].append((f'restart-raises:{type(e).__name__}', f'{e!r}', w))
+                await asyncio.sleep(0.001)
+                take_emissions()
+                obligations.clear()
+                heard = None
+                R['pattern'].append('S')
             elif ev[0] == 'restart':
                 # the same instance stopped and started again: what it has learnt stays (the vector never decreases)
                 inst.stop()
@@ -690,7 +740,8 @@ def run(ctx):
               'periodic-expiry', 'publication', 'vector-newer', 'vector-self-too-much', 'vector-self-too-much-twice', 'vector-no-seq', 'outdated-vector-answered',
               'publication-next-to-reception', 'publication-before-start', 'instance-restarted', 'vector-with-unknown-elements-between-entries',
               'vector-for-a-second-group-on-the-same-application', 'second-group-stopped-first-goes-on', 'instance-restarted-without-yielding',
-              'publication-whose-announcement-failed-in-the-transport'):
+              'publication-whose-announcement-failed-in-the-transport',
+              'wall-clock-stepped-while-a-timer-is-armed', 'vector-with-its-validator-when-the-instance-is-stopped'):
         ctx.need_event(k)
     ctx.assumptions = ['when suppression is entered is read from the instance (not part of the statement)',
                        'a vector containing a malformed entry may be merged without that entry or ignored entirely',
